@@ -32,6 +32,22 @@ var c14FamEarlierPlus = []string{"GPL-1.0+", "LGPL-2.0+", "AGPL-1.0+", "Apache-1
 
 const c14FamPrefix = "same-family-leaves|"
 
+// a third leaf pool: every leaf carries a WITH exception (a parser or evaluator that treats such terms
+// specially - look-ahead, re-parsing, exception filtering - works harder on exactly these)
+const c14WithPrefix = "with-leaves|"
+
+var c14WithPool = func() []string {
+	var out []string
+	for _, id := range c14Pool[:8] {
+		out = append(out, id+" WITH mif-exception")
+	}
+	return out
+}()
+
+func c14CtxName(family string) string {
+	return strings.TrimPrefix(strings.TrimPrefix(family, c14FamPrefix), c14WithPrefix)
+}
+
 // c14FamAllowed: the allowed list of a same-family context for one of the two Satisfies functions.
 func c14FamAllowed(family, fn string) []string {
 	if !strings.HasPrefix(family, c14FamPrefix) {
@@ -98,8 +114,10 @@ func c14Input(family string, n int, ctxs map[string]c14Context) (expr string, al
 	pool := c14Pool
 	if strings.HasPrefix(family, c14FamPrefix) {
 		pool = c14FamPool
+	} else if strings.HasPrefix(family, c14WithPrefix) {
+		pool = c14WithPool
 	}
-	if cx, isCtx := ctxs[strings.TrimPrefix(family, c14FamPrefix)]; isCtx {
+	if cx, isCtx := ctxs[c14CtxName(family)]; isCtx {
 		p := 0
 		next := func() string { s := pool[p%len(pool)]; p++; return s }
 		e := next()
@@ -328,7 +346,7 @@ func init() {
 		ID:       "C14",
 		Title:    "cost is polynomial in input size",
 		Explorer: "E1 exhaustive enumeration of linear recursion families (every context <= k leaves with a hole) unrolled under a length bound, deterministic allocation monitor on the real code",
-		Rule: "family = a recursion context (tree with <= k leaves, any AND/OR labelling, one leaf marked as hole; e1 = a term, e(n+1) = C[e(n)] with fresh leaves round-robin from 8 licence ids + 2 references; and every context once more with leaves from 8 early versions of range-table families against allowed lists of the same families that reach none / all of them) or one of 22 scalar families (parenthesis depth, spaces, long ids, rewrite chains, long / overlapping allowed lists, n terms vs n entries, and 10 families of INVALID input that exercise the error paths); each family is unrolled n = 1,2,3,... (scalar: doubling) while the total argument length stays <= B bytes (B = 2048 quick, 4096 thorough); " +
+		Rule: "family = a recursion context (tree with <= k leaves, any AND/OR labelling, one leaf marked as hole; e1 = a term, e(n+1) = C[e(n)] with fresh leaves round-robin from 8 licence ids + 2 references; and every context once more with leaves from 8 early versions of range-table families against allowed lists of the same families that reach none / all of them; and once more with leaves that all carry a WITH exception) or one of 22 scalar families (parenthesis depth, spaces, long ids, rewrite chains, long / overlapping allowed lists, n terms vs n entries, and 10 families of INVALID input that exercise the error paths); each family is unrolled n = 1,2,3,... (scalar: doubling) while the total argument length stays <= B bytes (B = 2048 quick, 4096 thorough); " +
 			"state = (family, n), 4 transitions (Satisfies with nothing / everything allowed, ExtractLicenses, ValidateLicenses); oracles: completes, TotalAlloc delta < 1 GiB, < 10 s, and alloc(2n) <= 20*alloc(n) (local degree <= 4); non-trivial = states with n >= 4 of families whose context contains both operators",
 		Assumptions: []string{
 			"TotalAlloc/Mallocs deltas of a single-goroutine call are deterministic; the growth law is evaluated on every doubling inside the bound, its continuation beyond the bound is an extrapolation",
@@ -423,12 +441,15 @@ func c14Run(c *Ctx) {
 	for _, n := range names {
 		fams = append(fams, c14FamPrefix+n)
 	}
-	c.Bound("families", map[string]any{"context_max_leaves": k, "contexts": len(names), "same_family_leaf_pool": c14FamPool, "same_family_allowed": map[string]any{"Satisfies/none-allowed": c14FamLater, "Satisfies/all-allowed": c14FamEarlierPlus}, "scalar": c14Scalar, "max_total_argument_bytes": B, "functions": c14Fns})
+	for _, n := range names {
+		fams = append(fams, c14WithPrefix+n)
+	}
+	c.Bound("families", map[string]any{"context_max_leaves": k, "contexts": len(names), "same_family_leaf_pool": c14FamPool, "with_leaf_pool": c14WithPool, "same_family_allowed": map[string]any{"Satisfies/none-allowed": c14FamLater, "Satisfies/all-allowed": c14FamEarlierPlus}, "scalar": c14Scalar, "max_total_argument_bytes": B, "functions": c14Fns})
 	for fi, fam := range fams {
 		if !c.Mine(int64(fi)) {
 			continue
 		}
-		_, isCtx := ctxs[strings.TrimPrefix(fam, c14FamPrefix)]
+		_, isCtx := ctxs[c14CtxName(fam)]
 		famLeaves := strings.HasPrefix(fam, c14FamPrefix)
 		both := strings.Contains(fam, "AND") && strings.Contains(fam, "OR")
 		for _, fn := range c14Fns {
